@@ -15,6 +15,8 @@ pub struct SubsScenario {
 	pub mask: fn(&str) -> bool,
 	pub buffer: u32,
 	pub max_subs: u32,
+	/// max_response_body_size (0 = default); when set, subscription ids are wider than it, so every accept() answer is oversized
+	pub max_resp: u32,
 }
 
 pub fn mask_harness_only(l: &str) -> bool {
@@ -33,7 +35,7 @@ impl Scenario for SubsScenario {
 		format!("srv_mem/subs:{}", self.name)
 	}
 	fn config(&self) -> Value {
-		json!({"connections": format!("{:?}", self.conns), "handler_scripts": format!("{:?}", self.scripts), "stop": self.stop, "buffer": self.buffer})
+		json!({"connections": format!("{:?}", self.conns), "handler_scripts": format!("{:?}", self.scripts), "stop": self.stop, "buffer": self.buffer, "max_response_body_size": self.max_resp})
 	}
 	fn mask(&self) -> fn(&str) -> bool {
 		self.mask
@@ -42,7 +44,7 @@ impl Scenario for SubsScenario {
 		300
 	}
 	fn setup(&self) -> SrvState {
-		smem::setup(&SrvCfg { conns: self.conns.iter().cloned().map(Conn::Ws).collect(), scripts: self.scripts.clone(), stop: self.stop, buffer: self.buffer, max_subs: self.max_subs, ..Default::default() })
+		smem::setup(&SrvCfg { conns: self.conns.iter().cloned().map(Conn::Ws).collect(), scripts: self.scripts.clone(), stop: self.stop, buffer: self.buffer, max_subs: self.max_subs, max_resp: self.max_resp, wide_ids: if self.max_resp > 0 { self.max_resp as usize + 28 } else { 0 }, ..Default::default() })
 	}
 	fn judge(&self, _st: SrvState, trace: &[String], panics: &[String], status: Status) -> Verdict {
 		let mut v = monitor(trace, self.conns.len());
@@ -50,7 +52,11 @@ impl Scenario for SubsScenario {
 			v.push((format!("machinery:{status:?}"), format!("{status:?}")));
 		}
 		for p in panics {
-			// a handler that calls accept() on a closed connection etc. must not panic either
+			// a handler that calls accept() on a closed connection etc. must not panic either;
+			// accept() documents a panic when its answer exceeds max_response_body_size (the peer is told -32008 first)
+			if self.max_resp > 0 && p.contains("The subscription response was too big") {
+				continue;
+			}
 			v.push(("panic".into(), p.clone()));
 		}
 		let outcome: Vec<&String> = trace.iter().filter(|l| l.contains(":rx:") || l.contains(":send:") && !l.ends_with("begin") || l.contains("is_closed") || l.contains("eof")).collect();
@@ -207,12 +213,12 @@ pub fn scenarios(thorough: bool) -> Vec<SubsScenario> {
 	use HStep::*;
 	use PeerAct::*;
 	let mut v = vec![
-		SubsScenario { name: String::from("unsubscribe-vs-sends"), conns: vec![vec![Subscribe(0), Unsub(0)]], scripts: vec![vec![Accept, Send, IsClosed, Send, IsClosed, Send, ReturnErr]], stop: false, mask: mask_sub_points, buffer: 16, max_subs: 16 },
-		SubsScenario { name: String::from("close-frame-vs-sends"), conns: vec![vec![Subscribe(0), CloseFrame]], scripts: vec![vec![Accept, Send, IsClosed, Send, IsClosed]], stop: false, mask: mask_harness_only, buffer: 16, max_subs: 16 },
-		SubsScenario { name: String::from("drop-vs-sends"), conns: vec![vec![Subscribe(0), Drop]], scripts: vec![vec![Accept, Send, IsClosed, Send, ReturnMsg]], stop: false, mask: mask_harness_only, buffer: 16, max_subs: 16 },
-		SubsScenario { name: String::from("stop-vs-sends"), conns: vec![vec![Subscribe(0)]], scripts: vec![vec![Accept, Send, IsClosed, Send, IsClosed, ReturnErr]], stop: true, mask: mask_harness_only, buffer: 16, max_subs: 16 },
-		SubsScenario { name: String::from("reject"), conns: vec![vec![Subscribe(0), Call]], scripts: vec![vec![Reject, ReturnErr]], stop: false, mask: mask_sub_points, buffer: 16, max_subs: 16 },
-		SubsScenario { name: String::from("drop-pending"), conns: vec![vec![Subscribe(0), Call]], scripts: vec![vec![DropPending, ReturnMsg]], stop: false, mask: mask_sub_points, buffer: 16, max_subs: 16 },
+		SubsScenario { name: String::from("unsubscribe-vs-sends"), conns: vec![vec![Subscribe(0), Unsub(0)]], scripts: vec![vec![Accept, Send, IsClosed, Send, IsClosed, Send, ReturnErr]], stop: false, mask: mask_sub_points, buffer: 16, max_subs: 16, max_resp: 0 },
+		SubsScenario { name: String::from("close-frame-vs-sends"), conns: vec![vec![Subscribe(0), CloseFrame]], scripts: vec![vec![Accept, Send, IsClosed, Send, IsClosed]], stop: false, mask: mask_harness_only, buffer: 16, max_subs: 16, max_resp: 0 },
+		SubsScenario { name: String::from("drop-vs-sends"), conns: vec![vec![Subscribe(0), Drop]], scripts: vec![vec![Accept, Send, IsClosed, Send, ReturnMsg]], stop: false, mask: mask_harness_only, buffer: 16, max_subs: 16, max_resp: 0 },
+		SubsScenario { name: String::from("stop-vs-sends"), conns: vec![vec![Subscribe(0)]], scripts: vec![vec![Accept, Send, IsClosed, Send, IsClosed, ReturnErr]], stop: true, mask: mask_harness_only, buffer: 16, max_subs: 16, max_resp: 0 },
+		SubsScenario { name: String::from("reject"), conns: vec![vec![Subscribe(0), Call]], scripts: vec![vec![Reject, ReturnErr]], stop: false, mask: mask_sub_points, buffer: 16, max_subs: 16, max_resp: 0 },
+		SubsScenario { name: String::from("drop-pending"), conns: vec![vec![Subscribe(0), Call]], scripts: vec![vec![DropPending, ReturnMsg]], stop: false, mask: mask_sub_points, buffer: 16, max_subs: 16, max_resp: 0 },
 		SubsScenario {
 			name: String::from("two-subs-one-conn"),
 			conns: vec![vec![Subscribe(0), Subscribe(1), Unsub(0)]],
@@ -221,6 +227,7 @@ pub fn scenarios(thorough: bool) -> Vec<SubsScenario> {
 			mask: mask_harness_only,
 			buffer: 16,
 			max_subs: 16,
+			max_resp: 0,
 		},
 		SubsScenario {
 			name: String::from("two-conns-foreign-unsub"),
@@ -230,11 +237,14 @@ pub fn scenarios(thorough: bool) -> Vec<SubsScenario> {
 			mask: mask_harness_only,
 			buffer: 16,
 			max_subs: 16,
+			max_resp: 0,
 		},
-		SubsScenario { name: String::from("try-send-and-closed"), conns: vec![vec![Subscribe(0), Unsub(0)]], scripts: vec![vec![Accept, TrySend, AwaitClosed, IsClosed, TrySend]], stop: false, mask: mask_harness_only, buffer: 16, max_subs: 16 },
-		SubsScenario { name: String::from("return-close-message-vs-unsubscribe"), conns: vec![vec![Subscribe(0), Unsub(0)]], scripts: vec![vec![Accept, Send, ReturnMsg]], stop: false, mask: mask_sub_points, buffer: 16, max_subs: 16 },
-		SubsScenario { name: String::from("accept-cancelled-under-backpressure"), conns: vec![vec![Call, Subscribe(0), Call]], scripts: vec![vec![AcceptCancellable, ReturnErr]], stop: false, mask: mask_all_server, buffer: 1, max_subs: 16 },
-		SubsScenario { name: String::from("tiny-buffer"), conns: vec![vec![Subscribe(0), Call, Unsub(0)]], scripts: vec![vec![Accept, Send, Send, Send, IsClosed]], stop: false, mask: mask_harness_only, buffer: 1, max_subs: 16 },
+		SubsScenario { name: String::from("try-send-and-closed"), conns: vec![vec![Subscribe(0), Unsub(0)]], scripts: vec![vec![Accept, TrySend, AwaitClosed, IsClosed, TrySend]], stop: false, mask: mask_harness_only, buffer: 16, max_subs: 16, max_resp: 0 },
+		SubsScenario { name: String::from("return-close-message-vs-unsubscribe"), conns: vec![vec![Subscribe(0), Unsub(0)]], scripts: vec![vec![Accept, Send, ReturnMsg]], stop: false, mask: mask_sub_points, buffer: 16, max_subs: 16, max_resp: 0 },
+		SubsScenario { name: String::from("accept-cancelled-under-backpressure"), conns: vec![vec![Call, Subscribe(0), Call]], scripts: vec![vec![AcceptCancellable, ReturnErr]], stop: false, mask: mask_all_server, buffer: 1, max_subs: 16, max_resp: 0 },
+		// the accept() answer exceeds max_response_body_size: the peer is told -32008, so the subscription was never accepted
+		SubsScenario { name: String::from("oversized-accept-answer"), conns: vec![vec![Subscribe(0), Call]], scripts: vec![vec![Accept, Send, Send, ReturnMsg]], stop: false, mask: mask_sub_points, buffer: 16, max_subs: 16, max_resp: 100 },
+		SubsScenario { name: String::from("tiny-buffer"), conns: vec![vec![Subscribe(0), Call, Unsub(0)]], scripts: vec![vec![Accept, Send, Send, Send, IsClosed]], stop: false, mask: mask_harness_only, buffer: 1, max_subs: 16, max_resp: 0 },
 	];
 	if thorough {
 		v.push(SubsScenario {
@@ -245,9 +255,10 @@ pub fn scenarios(thorough: bool) -> Vec<SubsScenario> {
 			mask: mask_harness_only,
 			buffer: 16,
 			max_subs: 16,
+			max_resp: 0,
 		});
-		v.push(SubsScenario { name: String::from("unsubscribe-vs-sends-all-server-points"), conns: vec![vec![Subscribe(0), Unsub(0)]], scripts: vec![vec![Accept, Send, IsClosed, Send, ReturnErr]], stop: false, mask: mask_all_server, buffer: 16, max_subs: 16 });
-		v.push(SubsScenario { name: String::from("stop-vs-sends-all-server-points"), conns: vec![vec![Subscribe(0)]], scripts: vec![vec![Accept, Send, IsClosed, Send]], stop: true, mask: mask_all_server, buffer: 16, max_subs: 16 });
+		v.push(SubsScenario { name: String::from("unsubscribe-vs-sends-all-server-points"), conns: vec![vec![Subscribe(0), Unsub(0)]], scripts: vec![vec![Accept, Send, IsClosed, Send, ReturnErr]], stop: false, mask: mask_all_server, buffer: 16, max_subs: 16, max_resp: 0 });
+		v.push(SubsScenario { name: String::from("stop-vs-sends-all-server-points"), conns: vec![vec![Subscribe(0)]], scripts: vec![vec![Accept, Send, IsClosed, Send]], stop: true, mask: mask_all_server, buffer: 16, max_subs: 16, max_resp: 0 });
 	}
 	// systematic product: peer scripts × handler scripts × stop × point masks
 	let handler_scripts: Vec<Vec<HStep>> = vec![
@@ -270,7 +281,7 @@ pub fn scenarios(thorough: bool) -> Vec<SubsScenario> {
 					if !thorough && mi == 1 && (pi + hi) % 2 == 1 {
 						continue;
 					}
-					v.push(SubsScenario { name: format!("product:p{pi}:h{hi}:stop={stop}:mask{mi}"), conns: vec![peer.clone()], scripts: vec![h.clone()], stop, mask, buffer: 16, max_subs: 16 });
+					v.push(SubsScenario { name: format!("product:p{pi}:h{hi}:stop={stop}:mask{mi}"), conns: vec![peer.clone()], scripts: vec![h.clone()], stop, mask, buffer: 16, max_subs: 16, max_resp: 0 });
 				}
 			}
 		}
@@ -283,7 +294,7 @@ pub fn scenarios(thorough: bool) -> Vec<SubsScenario> {
 				if !thorough && (ai > 2 || bi > 3 || pi == 1) {
 					continue;
 				}
-				v.push(SubsScenario { name: format!("product2:p{pi}:h{ai}:h{bi}"), conns: vec![peer.clone()], scripts: vec![a.clone(), b.clone()], stop: false, mask: mask_harness_only, buffer: 16, max_subs: 16 });
+				v.push(SubsScenario { name: format!("product2:p{pi}:h{ai}:h{bi}"), conns: vec![peer.clone()], scripts: vec![a.clone(), b.clone()], stop: false, mask: mask_harness_only, buffer: 16, max_subs: 16, max_resp: 0 });
 			}
 		}
 	}
